@@ -185,6 +185,10 @@ def case_lazy(rng: Any, ctx: Ctx, index: int) -> None:
         # lineax solvers refuse pytrees of mixed dtypes (DESIGN §7.2): uniform-dtype structures only
         s = gen.S((int(rng.integers(2, 13)),), gen.case_dtype(rng))
     name = gen.pick(rng, sorted(SOLVERS))
+    if name in ('BiCGStab', 'GMRES') and any(np.dtype(l.dtype).itemsize < 8 for l in dense.leaves(s)):
+        # the non-symmetric Krylov solvers of lineax stagnate in float32 on SPD systems of condition number ~25 (residual 1e-3
+        # relative with rtol=1e-5, throw=False): a property of the dependency in single precision; they are run on float64 data only
+        name = 'CG-1e-5'
     # lineax's BiCGStab returns NaN for an exactly zero right-hand side (a dependency behaviour, see
     # DESIGN §7): block-diagonal operands, whose blocks see zero sub-vectors, are not paired with it
     a = generate(lambda: spd_operator(rng, s, blockdiag=name != 'BiCGStab'))
